@@ -117,6 +117,85 @@ class C06RunState(Oracle):
         self.prev_run_id = rid
 
 
+class C06Model(Oracle):
+    """Reference transition model with latencies, consulted in the deterministic fragment only: user control commands
+    spaced so that at most one is in flight, no control instruction in the method, no method error, no injected code,
+    no cancel/force.  An accepted command executes in the command phase of the next tick: Start, Pause, Unpause, Hold and
+    Unhold show after 1 tick, Stop after 2, Restart after 3 (appendix A).  From then on, until the next accepted
+    command, the control state must equal the fold of the accepted commands - a lost, late or misapplied command shows."""
+
+    LAT = {"Start": 1, "Pause": 1, "Unpause": 1, "Hold": 1, "Unhold": 1, "Stop": 2, "Restart": 3}
+
+    def __init__(self, world, plan, res):
+        super().__init__(world, plan, res)
+        import re
+        self.enabled = not any(re.match(r"^\s*([0-9.]+ )?(Pause|Hold|Stop|Restart|Unpause|Unhold)\b", c)
+                               for _, c in plan["method"])
+        self.m = (False, False, False)        # (running, holding, paused)
+        self.settle = -1
+        self.rid_before: str | None = None
+        self.expect_new_rid = False
+        self.last_cmd = ""
+
+    def after_request(self, kind, msg, accepted, reply):
+        if not self.enabled:
+            return
+        w = self.w
+        if kind != "control" or msg.name not in self.LAT:
+            if accepted and not (kind == "edit" and self.settle < 0):    # the initial method load is not a live edit
+                self.enabled = False          # injected code / edits / cancel / force / UOD commands: outside the fragment
+            return
+        if not accepted:
+            return
+        if w.tick_no < self.settle:
+            self.enabled = False              # a second command while one is in flight: outside the fragment
+            self.res.probe("c06_model_left_fragment")
+            return
+        r, h, p = self.m
+        n = msg.name
+        if n == "Start":
+            self.m = (True, False, False)
+        elif n == "Stop":
+            self.m = (False, False, False)
+        elif n == "Restart":
+            self.m = (True, False, False)
+        elif n == "Pause":
+            self.m = (r, h, True)
+        elif n == "Unpause":
+            self.m = (r, h, False)
+        elif n == "Hold":
+            self.m = (r, True, p)
+        elif n == "Unhold":
+            self.m = (r, False, p)
+        self.settle = w.tick_no + self.LAT[n]
+        self.rid_before = w.tag("Run Id")
+        self.expect_new_rid = n in ("Start", "Restart")
+        self.last_cmd = n
+
+    def after_tick(self, w, inc):
+        if not self.enabled:
+            return
+        if w.engine.has_error_state() or "err" in w.ctx_flags:
+            self.enabled = False
+            return
+        if w.tick_no < self.settle or self.settle < 0:
+            return
+        got = w.control()
+        if got != self.m:
+            self.v("C06", "C06.state_differs_from_model", self.last_cmd,
+                   f"{w.tick_no - self.settle + self.LAT.get(self.last_cmd, 0)} ticks after the accepted user command "
+                   f"{self.last_cmd} the control state (running, holding, paused) is {got}, the transition model says {self.m} "
+                   f"(System State {w.state})")
+            self.enabled = False
+            return
+        if self.expect_new_rid and w.tick_no == self.settle:
+            rid = w.tag("Run Id")
+            if not rid or rid == self.rid_before:
+                self.v("C06", "C06.no_new_run_id_after_" + self.last_cmd, self.last_cmd,
+                       f"Run Id {rid!r} after {self.last_cmd} settled (was {self.rid_before!r})")
+        self.res.probe("c06_model_ticks_checked")
+
+
 class C07Clocks(Oracle):
     """Process/Run Time zero at run start and monotone; clocks advance only over ticks whose previous state
     was Running (Run Time: run active); Block/Scope Time not while Paused or Holding."""
